@@ -20,6 +20,9 @@ import (
 	"path/filepath"
 	"strings"
 
+	"github.com/vechain/thor/v2/genesis"
+	"github.com/vechain/thor/v2/thor"
+
 	"verifharness/internal/trace"
 )
 
@@ -55,6 +58,8 @@ func main() {
 			want[p] = true
 		}
 	}
+	// thor's blocklist is a fixed table of mainnet addresses nobody here has keys for: replace it by one dev account
+	thor.MockBlocklist([]string{genesis.DevAccounts()[blockedDev].Address.String()})
 	var evs, blobs []trace.Ev
 	summary := map[string]any{}
 	perProf := map[string]int{}
@@ -78,7 +83,11 @@ func main() {
 			continue
 		}
 		w := newWorld(p, *seed*1000+int64(len(p.name)))
-		for i := 0; i < *blocks; i++ {
+		n := *blocks
+		if p.length != 0 {
+			n = p.length
+		}
+		for i := 0; i < n; i++ {
 			if err := w.extend(); err != nil {
 				harnessError(p.name, err)
 			}
@@ -87,7 +96,15 @@ func main() {
 		r.nextID = id
 		var bases map[uint32]bool
 		if *basesF == "boundary" {
-			bases = map[uint32]bool{uint32(*blocks): true, 3: true, 2: true}
+			bases = map[uint32]bool{uint32(n): true, 3: true, 2: true}
+			if p.qbases != nil {
+				bases = map[uint32]bool{}
+				for _, h := range p.qbases {
+					bases[h] = true
+				}
+			}
+		} else if p.length > 20 {
+			bases = map[uint32]bool{uint32(n): true, uint32(n - 1): true, uint32(n - 2): true, 104: true, 60: true, 3: true}
 		}
 		if *mode == "catalogue" || *mode == "both" {
 			r.runCatalogue(bases, *only)
